@@ -274,6 +274,7 @@ fn spawn_worker(exe: &str, id: &str, tier: Tier, seed: u64, start: u64, stride: 
     let errf = std::fs::File::create(&stderr_path).expect("stderr file");
     let mut child = Command::new(exe)
         .args(["--worker", id, tier.name(), &seed.to_string(), &start.to_string(), &stride.to_string(), &end.to_string()])
+        .env("VERIF_WORKDIR", work)
         .stdin(Stdio::null())
         .stdout(Stdio::piped())
         .stderr(errf)
